@@ -6,16 +6,20 @@ EXTENDS Core
 CONSTANTS DlOpts, Timeouts, MaxStops, ThirdActs
 
 NoStop == <<<<NOOP, 0>>, <<NOOP, 0>>, <<NOOP, 0>>>>
+KillNow == <<<<KILL, INF>>, <<NOOP, 0>>, <<NOOP, 0>>>>
 Acts == {<<NOOP, 0>>, <<7, 0>>} \cup {<<a, t>> : a \in {WAITA, TERMINATE, KILL}, t \in Timeouts \cup {INF, DEADLINE}}
 Third == IF ThirdActs = "All" THEN Acts ELSE {<<NOOP, 0>>, <<7, 0>>, <<KILL, INF>>, <<WAITA, 0>>}
 Triples == {<<a, b, c>> : a \in Acts, b \in Acts, c \in Third}
 
 \* fork mode: every combination in the thorough tier, two representatives in the quick tier
-StartOpts == {[dl |-> d, stop |-> NoStop, nb |-> FALSE, rin |-> 0, rout |-> 0, rerr |-> 0, input |-> -1,
+StartOpts == ({[dl |-> d, stop |-> NoStop, nb |-> FALSE, rin |-> 0, rout |-> 0, rerr |-> 0, input |-> -1,
                term |-> t, self |-> sf, prog |-> "/bin/c", fork |-> fk] : d \in DlOpts, t \in 0..2, sf \in BOOLEAN, fk \in BOOLEAN}
              \ (IF ThirdActs = "All" THEN {} ELSE
                  {[dl |-> d, stop |-> NoStop, nb |-> FALSE, rin |-> 0, rout |-> 0, rerr |-> 0, input |-> -1,
-                   term |-> t, self |-> sf, prog |-> "/bin/c", fork |-> TRUE] : d \in DlOpts, t \in 1..2, sf \in BOOLEAN})
+                   term |-> t, self |-> sf, prog |-> "/bin/c", fork |-> TRUE] : d \in DlOpts, t \in 1..2, sf \in BOOLEAN}))
+             \* a policy given at start is for destroy / run only: an explicit request, also the all-noop one, ignores it
+             \cup {[dl |-> d, stop |-> KillNow, nb |-> FALSE, rin |-> 0, rout |-> 0, rerr |-> 0, input |-> -1,
+                     term |-> 2, self |-> TRUE, prog |-> "/bin/c", fork |-> FALSE] : d \in DlOpts}
 
 Next ==
   \/ ncalls = 0 /\ New(1)
@@ -28,6 +32,7 @@ Next ==
   \/ \E c \in ExitCodes : ChildExit(1, c)
   \/ ChildDie(1)
   \/ ChildCloseX(1)
+  \/ ChildExitG(1, 3) \/ GrandGone(1)
   \/ Interrupt
 
 Spec == Init /\ [][Next]_vars
